@@ -41,7 +41,10 @@ PrintOK(c, lv) ==
 \*   c15: print / re-parse round trip
 TextOK(c) ==
   LET lv == LeavesOf(c.toks) IN
-  IF c.blank = 1 THEN c.raised = 0       \* whitespace-only text: decision not determined
+  IF c.blank = 1
+  THEN \* text without any token: C02 is explicit that only the EMPTY string (and [] and @)
+       \* mean always allow, so blanks alone deny; C01 / C15 make no claim about it
+       c.raised = 0 /\ (c.want = "c02" => ObsTable(c.table) = {} /\ c.extra_allow = 0)
   ELSE CASE c.want = "c01" -> (RefAccepts(c.toks) => c.raised = 0 /\ ObsTable(c.table) = RefTable(c.toks))
          [] c.want = "c02" -> /\ c.raised = 0      \* loading/evaluating a string never fails
                               /\ (~RefAccepts(c.toks) => ObsTable(c.table) = {} /\ c.extra_allow = 0)
